@@ -18,7 +18,7 @@ arbitrary type `δ` of live child objects and arbitrary validators `acc`):
 2. **bridge**: the key lists of the hand-written value model (`modelKeys`) are the ones the table
    derives from the source.
 3. **value model**: `roundtrip_X : X.fromDict (X.toDict d) = ok d` for every constructed state `d`, in
-   the full-strength form "for every keyword dictionary the constructor accepts"; and the
+   the full-strength form "for every keyword dictionary the constructor accepts" (all 15 classes, ADevice included since /repo 31f4c67); and the
    same-behaviour corollaries against `DK.Leaf` / `DK.Tree`.
 -/
 namespace DK.C16
@@ -155,74 +155,33 @@ section ADev
 variable [Add α] [Sub α] [Mul α] [Div α] [Neg α] [OfNat α 0] [OfNat α 1] [OfNat α 2]
   [LT α] [LE α] [DecidableEq α] [DecidableLT α] [DecidableLE α]
 
-/-
-FULL STATEMENT (false for the code as it is — see `roundtrip_ADevice_counterexample`):
-  theorem roundtrip_ADevice (acc) (kw) (d) (h : Dev.construct semADevice acc kw = .ok d) :
-      Dev.fromDict semADevice acc (Dev.toDict semADevice d) = .ok d
-`ADevice.constraints` (the getter `to_dict` reads) returns `Device.constraints + self._constraints`,
-so with cumulative bounds AND user constraints the dump carries the original's cumulative-bound
-closures in front of the user's list; the twin stores them all as its own user constraints and then
-adds its own cumulative-bound closures again (2·|cbounds| more constraints on every round trip).
-Proved: the round trip when the device has no cumulative bounds or was given no `constraints`.
--/
-theorem roundtrip_ADevice_partial (acc : DevSettings α δ → Bool) (kw : Dict α δ) (d : DevSettings α δ)
-    (h : Dev.construct semADevice acc kw = .ok d)
-    (hno : d.cbounds.getD [] = [] ∨ ∀ e ∈ d.extra, e.1 ≠ "constraints") :
-    Dev.fromDict semADevice acc (Dev.toDict semADevice d) = .ok d := by
-  -- the stored-state invariant, re-derived because `semADevice` is not `Lawful` (its getter is not the identity)
-  have hpost : ∀ x : DevSettings α δ, (semADevice : DevSem α δ).post x = x := fun _ => rfl
-  have hnorm : ∀ k (v : Val α δ), (semADevice : DevSem α δ).norm k v = v := fun _ _ => rfl
-  unfold Dev.construct at h
-  split at h <;> try contradiction
-  rename_i id n bv _ _ _
-  split at h <;> try contradiction
-  rename_i b hb
-  split at h <;> try contradiction
-  rename_i cb _
-  simp only [hpost] at h
-  split at h <;> try contradiction
-  rename_i hacc
-  simp only [Except.ok.injEq] at h
-  subst h
-  refine Dev.roundtrip semADevice acc _ ⟨normBounds_length n bv b hb, ?_, ?_, rfl⟩ hacc
-  · intro e he
-    simp only [List.mem_map] at he
-    obtain ⟨e0, he0, rfl⟩ := he
-    exact (Dict.mem_without kw devNamed e0 he0).2
-  · intro e he
-    rw [hnorm]
-    simp only [semADevice]
-    split
-    · rename_i k v l hk hv
-      rcases hno with hno | hno
-      · simp only at hno
-        simp [hno, deviceCons, hv]
-      · exact absurd hk (hno e he)
-    · rfl
+/-- **ADevice**: `f` and the user's `constraints` come back as given — `ADevice.to_dict` dumps the stored
+user list, not the combined `constraints` property — for every accepted keyword dictionary, with or
+without cumulative bounds. -/
+theorem roundtrip_ADevice (acc : DevSettings α δ → Bool) (kw : Dict α δ) (d : DevSettings α δ)
+    (h : Dev.construct semADevice acc kw = .ok d) :
+    Dev.fromDict semADevice acc (Dev.toDict semADevice d) = .ok d :=
+  Dev.construct_roundtrip semADevice semADevice_lawful acc kw d h
 
-/-- non-vacuity of `roundtrip_ADevice_partial`: user constraints without cumulative bounds, and
-cumulative bounds without user constraints, are both constructible and satisfy the side condition. -/
-example : ∃ d : DevSettings Int Unit, Dev.construct semADevice (fun _ => true)
-      [("id", .str "a"), ("length", .nat 1), ("bounds", .pairNum 0 1),
-       ("constraints", .cons [{ isEq := false, fn := fun x => x 0, jac := none }])] = .ok d
-    ∧ (d.cbounds.getD [] = [] ∨ ∀ e ∈ d.extra, e.1 ≠ "constraints") :=
-  ⟨_, rfl, Or.inl rfl⟩
-example : ∃ d : DevSettings Int Unit, Dev.construct semADevice (fun _ => true)
-      [("id", .str "a"), ("length", .nat 1), ("bounds", .pairNum 0 1), ("cbounds", .pairNum 0 1), ("f", .fn .null)] = .ok d
-    ∧ (d.cbounds.getD [] = [] ∨ ∀ e ∈ d.extra, e.1 ≠ "constraints") :=
-  ⟨_, rfl, Or.inr (by decide)⟩
+/-- non-vacuity: cumulative bounds AND user constraints AND `f` together are constructible. -/
+example : Dev.construct (α := Int) (δ := Unit) semADevice (fun _ => true)
+      [("id", .str "a"), ("length", .nat 1), ("bounds", .pairNum 0 1), ("cbounds", .pairNum 0 1), ("f", .fn .null),
+       ("constraints", .cons [])]
+    = .ok { id := "a", n := 1, bounds := [(0, 1)], cbounds := some [{ l := 0, h := 1, s := 0, e := 1 }],
+            extra := [("f", .fn .null), ("constraints", .cons [])] } := rfl
 
-/-- the witness: one slot, one cumulative bound, an (empty) user constraint list.  The dump's
-`constraints` holds the two cumulative-bound closures, so the twin is NOT the original, whatever
-the validators are. -/
-theorem roundtrip_ADevice_counterexample :
-    ∃ d : DevSettings α δ, Dev.construct semADevice (fun _ => true)
+/-- ABOUT THE OLD DUMP FUNCTION (`semADeviceOld`, the code before `/repo` commit 31f4c67 — NOT the code
+as it is): one slot, one cumulative bound, an (empty) user constraint list.  The old dump's
+`constraints` held the two cumulative-bound closures, so the twin was not the original, whatever the
+validators.  This is what the reverse of that commit re-introduces. -/
+theorem old_ADevice_dump_counterexample :
+    ∃ d : DevSettings α δ, Dev.construct semADeviceOld (fun _ => true)
         [("id", .str "a"), ("length", .nat 1), ("bounds", .pairNum 0 1), ("cbounds", .pairNum 0 1), ("constraints", .cons [])] = .ok d
-      ∧ ∀ acc, Dev.fromDict semADevice acc (Dev.toDict semADevice d) ≠ .ok d := by
+      ∧ ∀ acc, Dev.fromDict semADeviceOld acc (Dev.toDict semADeviceOld d) ≠ .ok d := by
   refine ⟨{ id := "a", n := 1, bounds := [(0, 1)], cbounds := some [{ l := 0, h := 1, s := 0, e := 1 }],
             extra := [("constraints", .cons [])] }, rfl, ?_⟩
   intro acc hcontra
-  have hd : Dev.fromDict (δ := δ) semADevice acc
+  have hd : Dev.fromDict (δ := δ) semADeviceOld acc
       [("id", .str "a"), ("length", .nat 1), ("bounds", .table [((0 : α), (1 : α))]),
        ("cbounds", .cbs [{ l := 0, h := 1, s := 0, e := 1 }]),
        ("constraints", .cons (cboundCons 1 { l := (0 : α), h := 1, s := 0, e := 1 }))]
@@ -231,13 +190,13 @@ theorem roundtrip_ADevice_counterexample :
          then .ok { id := "a", n := 1, bounds := [(0, 1)], cbounds := some [{ l := 0, h := 1, s := 0, e := 1 }],
                     extra := [("constraints", .cons (cboundCons 1 { l := (0 : α), h := 1, s := 0, e := 1 }))] }
          else .error .rejected) := rfl
-  have hdump : Dev.toDict (δ := δ) semADevice
+  have hdump : Dev.toDict (δ := δ) semADeviceOld
       { id := "a", n := 1, bounds := [((0 : α), (1 : α))], cbounds := some [{ l := 0, h := 1, s := 0, e := 1 }],
         extra := [("constraints", .cons [])] }
       = [("id", .str "a"), ("length", .nat 1), ("bounds", .table [((0 : α), (1 : α))]),
          ("cbounds", .cbs [{ l := 0, h := 1, s := 0, e := 1 }]),
          ("constraints", .cons (cboundCons 1 { l := (0 : α), h := 1, s := 0, e := 1 }))] := by
-    simp [Dev.toDict, semADevice, optCbsVal, deviceCons]
+    simp [Dev.toDict, semADeviceOld, optCbsVal, deviceCons]
   rw [hdump, hd] at hcontra
   split at hcontra
   · simp only [Except.ok.injEq, DevSettings.mk.injEq, List.cons.injEq, Prod.mk.injEq, Val.cons.injEq] at hcontra
@@ -454,18 +413,6 @@ theorem same_behaviour_Dev (cls : LeafClass) (sem : DevSem α δ) (hl : sem.Lawf
     ∧ (∀ s i j, (toLeaf cls d').hess s i j = (toLeaf cls d).hess s i j)
     ∧ leafCons cls d' = leafCons cls d := by
   rw [Dev.construct_roundtrip sem hl acc kw d h] at h'
-  cases h'
-  simp
-
-/-- **same behaviour, ADevice** (under the hypothesis of `roundtrip_ADevice_partial`). -/
-theorem same_behaviour_ADevice_partial (acc : DevSettings α δ → Bool) (kw : Dict α δ) (d d' : DevSettings α δ)
-    (h : Dev.construct semADevice acc kw = .ok d)
-    (hno : d.cbounds.getD [] = [] ∨ ∀ e ∈ d.extra, e.1 ≠ "constraints")
-    (h' : Dev.fromDict semADevice acc (Dev.toDict semADevice d) = .ok d') :
-    (∀ s p, (toLeaf .adevice d').cost s p = (toLeaf .adevice d).cost s p)
-    ∧ (∀ s p i, (toLeaf .adevice d').deriv s p i = (toLeaf .adevice d).deriv s p i)
-    ∧ leafCons .adevice d' = leafCons .adevice d := by
-  rw [roundtrip_ADevice_partial acc kw d h hno] at h'
   cases h'
   simp
 
